@@ -222,8 +222,12 @@ class Evidence:
 
 def finish(ev: Evidence, findings: list[Finding], harness_errors: list[str], core_ok: bool = True) -> int:
     """Common epilogue: write evidence, print lines, pick the exit code."""
-    ev.violations = len({f.key for f in findings})
-    ev.add(harness_errors=len(harness_errors))
+    known = {(k["property"], k["key"]) for k in load_known() if k.get("status") == "known"}
+    keys = {f.key for f in findings}
+    listed = sorted(k for k in keys if (ev.prop, k) in known)
+    # `violations` = reproduced violations NOT listed in known_findings.json (what makes the check exit 1)
+    ev.violations = len(keys) - len(listed)
+    ev.add(known_findings_reproduced=listed, harness_errors=len(harness_errors))
     if harness_errors:
         ev.coverage["harness_error_samples"] = harness_errors[:5]
     ev.write()
